@@ -154,8 +154,19 @@ func (h *recHist) Open(f string, t time.Time, id string) error {
 	}
 	return h.HistoryStore.Open(f, t, id)
 }
-func (h *recHist) Write(st *model.Status) error { h.rec.add("write"); return h.HistoryStore.Write(st) }
-func (h *recHist) Close() error                 { h.rec.add("close"); return h.HistoryStore.Close() }
+func (h *recHist) Write(st *model.Status) (err error) {
+	h.rec.add("write")
+	// the agent's status goroutines can call Write after the deferred Close; jsondb then dereferences its nil
+	// writer (jsondb.go:91).  In the real process that is a crash at exit; here it must not take the driver down.
+	defer func() {
+		if p := recover(); p != nil {
+			h.rec.add("panic:write-after-close")
+			err = fmt.Errorf("panic in history Write: %v", p)
+		}
+	}()
+	return h.HistoryStore.Write(st)
+}
+func (h *recHist) Close() error { h.rec.add("close"); return h.HistoryStore.Close() }
 func (h *recHist) RemoveOld(f string, d int) error {
 	h.rec.add("removeold")
 	return h.HistoryStore.RemoveOld(f, d)
@@ -349,6 +360,9 @@ func prepareG(s *spec, tag string, opts *agent.Options, gate chan struct{}) (*ru
 	}
 	wf.LogDir = filepath.Join(s.dir, "logs")
 	r.wf = wf
+	sockMu.Lock()
+	sockPaths[wf.SockAddr()] = true
+	sockMu.Unlock()
 	if opts.RetryTarget != nil {
 		// the recorded nodes carry the executor configuration of the run they were taken from: re-tag them
 		for _, n := range opts.RetryTarget.Nodes {
@@ -443,6 +457,12 @@ func (r *runner) run() {
 }
 
 var abandoned int32
+
+// every socket path used, removed once more at the end (a hung or crashed run may leave its socket in /tmp)
+var (
+	sockMu    sync.Mutex
+	sockPaths = map[string]bool{}
+)
 
 // the first run of the class `running` is held by the driver itself; its watchdog starts at the release
 func (r *runner) watchdog() time.Duration {
@@ -861,5 +881,9 @@ func main() {
 		out.Put(c)
 	}
 	out.Close()
+	for a := range sockPaths {
+		_ = os.RemoveAll(a)
+		_ = os.Remove(a + ".lock")
+	}
 	os.Exit(0) // abandoned (hung) agent goroutines must not keep the process alive
 }
